@@ -8,6 +8,20 @@ import traceback
 from . import core
 
 
+COMMON = ["bounded exploration: what TLC enumerates and what the drivers run is finite (bounds in coverage.rule / tlc_runs)",
+          "Python's own semantics (the twin programs, symtable, giving / reactivex, codefind) are trusted as the reference",
+          "an observation is accepted as a known deviation only through an open entry of known_findings.json"]
+ASSUME = {
+    "C08": ["threads are interleaved by a baton scheduler at attribute / subscript loads and stores of the watched ptera code and at the "
+            "entry of the shared function; ptera's tooling lock is replaced by a cooperative stand-in with the same exclusion",
+            "preemption-bounded: at most two preemptions per schedule"],
+    "C14": ["every history runs on a fresh copy of the reference world (own file, shifted by a distinct number of lines)"],
+    "C09": ["drop of a generator = del + gc.collect() (CPython reference counting)"],
+    "C01": ["side effects are what the rt2 helpers log (evaluation sites, iteration protocol, stores into objects, calls)"],
+    "C05": ["the mechanism state read back (instrument_count, captures, handler_pairs, global_probes) uses ptera internals of this tree"],
+}
+
+
 def main():
     ap = argparse.ArgumentParser()
     ap.add_argument("prop")
@@ -23,6 +37,7 @@ def main():
             mod.replay(out, a.replay)
         else:
             mod.run(out, tier, seed)
+        out.assumptions += [x for x in COMMON + ASSUME.get(a.prop, []) if x not in out.assumptions]
         rc = out.finish()
     except core.MachineryError as ex:
         print(f"MACHINERY-FAILURE property={a.prop}: {ex}", file=sys.stderr)
